@@ -567,8 +567,7 @@ impl GroupConfig {
         Ok(PathSelector::new(base_dir.clone())
             .include_names(include_names?)
             .include_paths(include_paths?)
-            .exclude_paths(exclude_paths?)
-            .input_paths(self.paths.iter().cloned()))
+            .exclude_paths(exclude_paths?))
     }
 
     /// Returns the input paths that lead through symbolic links:
